@@ -452,6 +452,24 @@ func c06Config(c *core.Ctx, k int) {
 		}
 		c06Call(c, n, data, "depth-8 nesting", true)
 		c06Call(c, n, gen.InjectHostile(r, data, c06Hostile[r.Intn(len(c06Hostile))]), "depth-8 nesting + hostile", true)
+	case k < 32:
+		// a field keyed by the empty string, at top level and nested, present and missing
+		mk := func() *spec.Node {
+			in := structOf("v", req(str()), "w", prim(spec.Int))
+			in.Fields[0].Tags = map[string]string{"zog": ""}
+			n := structOf("top", req(str()), "inner", in, "list", sliceOf(in))
+			n.Fields[0].Tags = map[string]string{"zog": ""}
+			return n
+		}
+		c06Call(c, mk(), map[string]any{}, "empty tag key, empty record", true)
+		c06Call(c, mk(), map[string]any{"": "t", "inner": map[string]any{"": "x", "w": "bad"}, "list": []any{map[string]any{}, map[string]any{"": 1}}}, "empty tag key, populated record", true)
+		n2 := mk()
+		n2.Number()
+		o := run.Validate(spec.Build(n2, nil), map[string]any{"Top": "", "Inner": map[string]any{"V": "", "W": 0}, "List": []any{map[string]any{"V": "", "W": 0}}})
+		c.Eval(1)
+		if o.Panicked {
+			c.Violation("validate-panicked|"+panicKind(o.Panic), map[string]any{"schema": n2.Source(), "panic": fmt.Sprint(o.Panic), "where": "empty tag key in Validate"})
+		}
 	default:
 		// Unicode field names that are still exported
 		for _, key := range []string{"Ünï", "Ωmega", "Ñandú", "Aé世", "X_1", "Z9"} {
